@@ -73,12 +73,12 @@ class Model:
       return 'NOT_FOUND'
     return None
 
-  def step(self, a, cls, resp, post_trials=None):
+  def step(self, a, cls, resp, post=None):
     """Checks (cls, resp) against the documentation; returns the successor model (self is not modified)."""
     kind = a[0]
     m = self.clone()
     fn = getattr(m, '_' + kind)
-    fn(a, cls, resp, post_trials)
+    fn(a, cls, resp, post)
     return m
 
   @staticmethod
@@ -281,11 +281,18 @@ class Model:
     t = self.studies[s]['trials'][tid]
     if t['state'] not in MUTABLE_TRIAL:
       return self._expect_err(cls, 'FAILED_PRECONDITION', 'CheckTrialEarlyStoppingState(%s)' % t['state'])
+    env = svc.env_of(a)
+    if (env.get('fail_stop') or env.get('fail_factory') or self._md_names_missing(s, env)) and cls != 'OK':
+      return  # failure reported as an error status (C06 checks that nothing is left half-done)
     self._ok(cls, 'CheckTrialEarlyStoppingState')
     self._need(resp[0] == 'EarlyStop', 'response', 'unexpected response type')
-    # the algorithm may attach metadata
-    env = svc.env_of(a)
-    self._apply_algo_md(s, env)
+    # the algorithm may attach metadata (only when it was actually consulted: adopt from the stored state)
+    if env.get('md_study') or env.get('md_trials'):
+      self._apply_algo_md(s, env)
+
+  def _md_names_missing(self, s, env):
+    """An algorithm answer that attaches metadata to a trial that does not exist is a failed answer."""
+    return any(tid not in self.studies[s]['trials'] for tid, _, _, _ in env.get('md_trials', ()))
 
   def _apply_algo_md(self, s, env):
     st = self.studies[s]
@@ -352,14 +359,49 @@ class Model:
       self._expect_err(cls, 'NOT_FOUND', 'GetOperation(missing)')
     # operations of deleted studies: don't-care here (C07 compares the backends)
 
-  def _SuggestTrials(self, a, cls, resp, post_trials):
+  @staticmethod
+  def _post_trials(post, s):
+    if post is None:
+      return ()
+    for name, ts in dict(post)['trials']:
+      if name == s:
+        return ts
+    return ()
+
+  @staticmethod
+  def _post_nops(post, s, c):
+    for s_, c_, ops in dict(post)['ops']:
+      if s_ == s and c_ == c:
+        return len(ops)
+    return 0
+
+  def _SuggestTrials(self, a, cls, resp, post):
     s, c, n = a[1], a[2], a[3]
     env = svc.env_of(a)
     g = self._guards('SuggestTrials', s)
     if g:
       return self._expect_err(cls, g, 'SuggestTrials')
-    self._ok(cls, 'SuggestTrials')
     ts = self.studies[s]['trials']
+    own = [i for i in sorted(ts) if ts[i]['state'] == 'ACTIVE' and ts[i]['client'] == c]
+    req = [i for i in sorted(ts) if ts[i]['state'] == 'REQUESTED']
+    from_own = own[:n]
+    need = n - len(from_own)
+    from_req_n = min(need, len(req))
+    need_new = need - from_req_n
+    fails = (env.get('fail_suggest') or env.get('fail_factory') or self._md_names_missing(s, env)) if need_new > 0 else None
+    post_t = {int(dict(t)['id']): dict(t) for t in self._post_trials(post, s)}
+    took = [i for i in req if post_t.get(i, {}).get('state') == 'ACTIVE']
+    if fails and cls != 'OK':
+      # The failure was reported as an error status. Nothing may have been created; REQUESTED trials may
+      # already have been handed to the caller; an operation record may or may not exist.
+      self._need(len(took) <= from_req_n, 'suggest-requested-pool', 'more REQUESTED trials consumed than asked for')
+      for i in took:
+        ts[i]['state'] = 'ACTIVE'
+        ts[i]['client'] = c
+      self._need(not [i for i in post_t if i not in ts], 'suggest-created-count', 'a failed suggest created trials')
+      self.nops[(s, c)] = self._post_nops(post, s, c)
+      return
+    self._ok(cls, 'SuggestTrials')
     self._need(resp[0] == 'Operation', 'response', 'SuggestTrials must return an operation')
     _, opname, done, has_err, handed = resp
     self._need(done, 'suggest-op-done', 'SuggestTrials returned an operation that is not done')
@@ -367,30 +409,21 @@ class Model:
     self.nops[(s, c)] = num
     want_name = svc.resources.SuggestionOperationResource('o', s, c, num).name
     self._need(opname == want_name, 'suggest-op-number', 'operation %s, expected %s' % (opname, want_name))
-    own = [i for i in sorted(ts) if ts[i]['state'] == 'ACTIVE' and ts[i]['client'] == c]
-    req = [i for i in sorted(ts) if ts[i]['state'] == 'REQUESTED']
-    from_own = own[:n]
-    need = n - len(from_own)
-    from_req_n = min(need, len(req))
-    need_new = need - from_req_n
-    fails = env.get('fail_suggest') or env.get('fail_factory')
-    if need_new > 0 and fails:
+    if fails:
       self._need(has_err, 'suggest-failure-reported', 'algorithm failure must yield an operation with error')
       delivered = 0
     else:
       self._need(not has_err, 'suggest-op-error', 'operation carries an error although the algorithm did not fail')
       delivered = 0 if need_new <= 0 else (0 if env.get('deliver_zero') else max(0, need_new + env.get('delta', 0)))
-    # adopt the implementation's choice of REQUESTED trials and of id assignment from post_trials
-    post = {int(dict(t)['id']): dict(t) for t in (post_trials or ())}
+    # adopt the implementation's choice of REQUESTED trials and of id assignment from the stored state
     max_before = max(ts) if ts else 0
-    new_ids = sorted(i for i in post if i not in ts)
+    new_ids = sorted(i for i in post_t if i not in ts)
     self._need(len(new_ids) == delivered, 'suggest-created-count',
                'algorithm delivered %d, %d trials were created (ids %s)' % (delivered, len(new_ids), new_ids))
     self._need(all(i > max_before for i in new_ids), 'suggest-fresh-ids',
                'new trial ids %s are not larger than every existing id (max %d)' % (new_ids, max_before))
     self._need(new_ids == list(range(max_before + 1, max_before + 1 + len(new_ids))), 'suggest-fresh-ids',
                'new trial ids %s are not consecutive after %d' % (new_ids, max_before))
-    took = [i for i in req if post.get(i, {}).get('state') == 'ACTIVE']
     self._need(len(took) == from_req_n, 'suggest-requested-pool',
                'expected %d REQUESTED trials to be handed out, %d were' % (from_req_n, len(took)))
     for i in took:
@@ -398,10 +431,10 @@ class Model:
       ts[i]['client'] = c
     n_active_new = min(need_new, delivered)
     want_params = sorted(svc.param_for(max_before + j + 1) for j in range(delivered))
-    got_params = sorted(dict(post[i])['params'][0][2] for i in new_ids)
+    got_params = sorted(post_t[i]['params'][0][2] for i in new_ids)
     self._need(want_params == got_params, 'suggest-params', 'created trials do not carry the delivered suggestions')
     for j, i in enumerate(new_ids):
-      p = post[i]
+      p = post_t[i]
       st_want = 'ACTIVE' if j < n_active_new else 'REQUESTED'
       ts[i] = {'id': str(i), 'name': svc.trial_name(i, s), 'state': st_want,
                'client': c if st_want == 'ACTIVE' else '', 'params': p['params'], 'meas': (), 'final': None,
@@ -409,16 +442,16 @@ class Model:
     self._apply_algo_md(s, env if (need_new > 0 and not fails) else {})
     if has_err:
       return
-    want_ids = [str(i) for i in from_own] + None_list(from_req_n) + [str(i) for i in new_ids[:n_active_new]]
     got_ids = [dict(t)['id'] for t in handed or ()]
-    self._need(len(got_ids) == len(want_ids), 'suggest-count',
+    n_want = len(from_own) + from_req_n + n_active_new
+    self._need(len(got_ids) == n_want, 'suggest-count',
                'asked %d, own-active %d, requested %d, delivered %d: expected %d trials, got %d'
-               % (n, len(from_own), from_req_n, delivered, len(want_ids), len(got_ids)))
-    self._need(got_ids[:len(from_own)] == want_ids[:len(from_own)], 'suggest-order',
+               % (n, len(from_own), from_req_n, delivered, n_want, len(got_ids)))
+    self._need(got_ids[:len(from_own)] == [str(i) for i in from_own], 'suggest-order',
                'own active trials must come first: %s' % got_ids)
     mid = got_ids[len(from_own):len(from_own) + from_req_n]
     self._need(sorted(mid) == sorted(str(i) for i in took), 'suggest-order', 'requested trials must come second')
-    self._need(got_ids[len(from_own) + from_req_n:] == want_ids[len(from_own) + from_req_n:], 'suggest-order',
+    self._need(got_ids[len(from_own) + from_req_n:] == [str(i) for i in new_ids[:n_active_new]], 'suggest-order',
                'new trials must come last in id order: %s' % got_ids)
     for t in handed or ():
       d = dict(t)
